@@ -1,0 +1,210 @@
+//go:build verif
+
+// Machine-checked contracts for package otp. This file contains comments only;
+// it is compiled only with -tags verif and is read by /verif/govc, which
+// generates verification conditions for the real functions of this package
+// from their SSA form and discharges them with SMT solvers.
+//
+// Syntax: Gobra-flavoured "//@" lines keyed by function name and loop ordinal.
+
+package otp
+
+//@ func otp.(Digits).Int(d) (r)
+//@   ensures r == d
+
+//@ func otp.truncate(sum, mod) (r)
+//@   requires len(sum) >= 20 && mod != 0
+//@   split sum[len(sum)-1] % 16 in 0..15
+//@   ensures r == dt31(view(sum)) % mod
+
+//@ func otp.shortDigit(otp, digits) (s)
+//@   requires 0 <= digits && digits <= 8
+//@   split digits in 0..8
+//@   loop 1 split i in -1..7
+//@   loop 1 invariant -1 <= i && i <= digits-1 && otp == otp0 / pow10(digits-1-i)
+//@   loop 1 invariant forall k in 0..7 :: i < k && k < digits ==> pad[k] == dig(otp0, digits, k)
+//@   loop 1 decreases i + 1
+//@   loop 2 split i in -1..7
+//@   loop 2 invariant -1 <= i && i <= digits-1 && (i < 0 || otp0 / pow10(digits-1-i) == 0)
+//@   loop 2 invariant forall k in 0..7 :: i < k && k < digits ==> pad[k] == dig(otp0, digits, k)
+//@   loop 2 decreases i + 1
+//@   ensures s == fmtdec(otp0, digits)
+
+//@ func otp.longDigit(otp, digits) (s)
+//@   requires 0 <= digits && digits <= 10
+//@   split digits in 0..10
+//@   loop 1 split i in -1..9
+//@   loop 1 invariant -1 <= i && i <= digits-1 && otp == otp0 / pow10(digits-1-i) && len(out) == digits
+//@   loop 1 invariant forall k in 0..9 :: i < k && k < digits ==> out[k] == dig(otp0, digits, k)
+//@   loop 1 decreases i + 1
+//@   ensures s == fmtdec(otp0, digits)
+
+//@ func otp.formatDecimal(val, digits) (s)
+//@   requires 0 <= digits && digits <= 10
+//@   split digits in 0..10
+//@   loop 1 split i in -1..9
+//@   loop 1 invariant -1 <= i && i <= digits-1 && val == val0 / pow10(digits-1-i) && len(out) == digits
+//@   loop 1 invariant forall k in 0..9 :: i < k && k < digits ==> out[k] == dig(val0, digits, k)
+//@   loop 1 decreases i + 1
+//@   ensures s == fmtdec(val0, digits)
+
+// hmacPools[0..2].new: the three HMAC constructors (function literals of the initialiser)
+//@ func otp.init$3(key) (h)
+//@   ensures ishmac(h) && hmacalg(h) == 0 && hmackey(h) == view(key) && hmacmsg(h) == "" && fresh(h)
+//@ func otp.init$4(key) (h)
+//@   ensures ishmac(h) && hmacalg(h) == 1 && hmackey(h) == view(key) && hmacmsg(h) == "" && fresh(h)
+//@ func otp.init$5(key) (h)
+//@   ensures ishmac(h) && hmacalg(h) == 2 && hmackey(h) == view(key) && hmacmsg(h) == "" && fresh(h)
+
+//@ func otp.deriveRFC4226(secret, counter, digits, algo) (s, err)
+//@   reveal hotp otpcode
+//@   label secret key
+//@   label result mac
+//@   ensures[rfc4226] algo <= 2 && 1 <= digits && digits <= 10 ==> err == nil && s == hotp(algo, view(secret), counter, digits)
+//@   ensures[badalgo] algo > 2 ==> err != nil && s == ""
+//@   ensures[baddigits] algo <= 2 && !(1 <= digits && digits <= 10) ==> err != nil && s == ""
+
+//@ func otp.DecodeSecret(secret) (r, err)
+//@   reveal b32ok b32key
+//@   label secret key
+//@   label result key
+//@   ensures[iff] err == nil <==> b32ok(secret)
+//@   ensures[key] err == nil ==> view(r) == b32key(secret)
+//@   ensures[fresh] fresh(r)
+
+//@ func otp.validate(code, expectedLength, deriveFn) (ok, err)
+//@   pure deriveFn
+//@   label code usr
+//@   label result clean
+//@   ensures[len] len(code) != expectedLength ==> !ok && err != nil
+//@   ensures[derr] len(code) == expectedLength && apply1(deriveFn) != nil ==> !ok && err != nil
+//@   ensures[cmp] len(code) == expectedLength && apply1(deriveFn) == nil ==> (ok <==> code == apply0(deriveFn))
+//@   ensures[verdict] (ok && err == nil) || (!ok && err != nil)
+
+//@ func otp.validateRFC4226$1() (s, err)
+//@   label secret key
+//@   label result mac
+//@   ensures[rfc4226] hotpok(algo, digits) ==> err == nil && s == hotp(algo, view(secret), counter, digits)
+//@   ensures[bad] !hotpok(algo, digits) ==> err != nil && s == ""
+
+//@ func otp.validateRFC4226(code, secret, counter, digits, algo) (ok, err)
+//@   label code usr
+//@   label secret key
+//@   label result clean
+//@   ensures[iff] ok <==> (hotpok(algo, digits) && len(code) == digits && code == hotp(algo, view(secret), counter, digits))
+//@   ensures[verdict] (ok && err == nil) || (!ok && err != nil)
+
+// TimeCounterFunc's initial value
+//@ func otp.init$6(t, period) (r)
+//@   requires period != 0
+//@   ensures unixsec(t.wall, t.ext) >= 0 ==> r == unixsec(t.wall, t.ext) / period
+
+//@ func otp.GenerateHOTP(secret, counter, param) (code, err)
+//@   label secret key
+//@   let d = param == nil ? 6 : param.Digits
+//@   let a = param == nil ? 0 : param.Algorithm
+//@   ensures[rfc4226] b32ok(secret) && hotpok(a, d) ==> err == nil && code == hotp(a, b32key(secret), counter, d)
+//@   ensures[reject] !(b32ok(secret) && hotpok(a, d)) ==> err != nil && code == ""
+
+//@ func otp.ValidateHOTP(secret, code, counter, param) (ok, err)
+//@   label secret key
+//@   label code usr
+//@   let d = param == nil ? 6 : param.Digits
+//@   let a = param == nil ? 0 : param.Algorithm
+//@   let s = param == nil ? 2 : param.Skew
+//@   requires counter + min(s, 10) <= 18446744073709551615
+//@   ensures[refuse] s > 10 ==> !ok && err != nil
+//@   ensures[badsecret] s <= 10 && !b32ok(secret) ==> !ok && err != nil
+//@   ensures[window] s <= 10 && b32ok(secret) ==> (ok <==> hotpok(a, d) && len(code) == d &&
+//@ |    exists j in -10..10 :: -s <= j && j <= s && counter + j >= 0 && code == hotp(a, b32key(secret), counter + j, d))
+//@   ensures[verdict] (ok && err == nil) || (!ok && err != nil)
+//@   loop 1 invariant -s <= i && i <= s + 1 && s <= 10 && skew == s && b32ok(secret) && view(secretBuf) == b32key(secret)
+//@   loop 1 invariant forall j in -10..10 :: -s <= j && j < i && counter + j >= 0 ==>
+//@ |    !(hotpok(a, d) && len(code) == d && code == hotp(a, b32key(secret), counter + j, d))
+//@   loop 1 decreases s + 1 - i
+//@   loop 1 bound 21
+
+//@ func otp.GenerateTOTP(secret, t, param) (code, err)
+//@   label secret key
+//@   let d = param == nil ? 6 : param.Digits
+//@   let a = param == nil ? 0 : param.Algorithm
+//@   let p = param == nil ? 30 : (param.Period == 0 ? 30 : param.Period)
+//@   let u = unixsec(t.wall, t.ext)
+//@   requires u >= 0
+//@   ensures[rfc6238] b32ok(secret) && hotpok(a, d) ==> err == nil && code == hotp(a, b32key(secret), u / p, d)
+//@   ensures[reject] !(b32ok(secret) && hotpok(a, d)) ==> err != nil && code == ""
+
+//@ func otp.ValidateTOTP(secret, code, t, param) (ok, err)
+//@   label secret key
+//@   label code usr
+//@   let d = param == nil ? 6 : param.Digits
+//@   let a = param == nil ? 0 : param.Algorithm
+//@   let s = param == nil ? 0 : param.Skew
+//@   let p = param == nil ? 30 : (param.Period == 0 ? 30 : param.Period)
+//@   let u = unixsec(t.wall, t.ext)
+//@   requires u >= 0 && u < 4611686018427387904 && u / p >= min(s, 10)
+//@   ensures[refuse] s > 10 ==> !ok && err != nil
+//@   ensures[badsecret] s <= 10 && !b32ok(secret) ==> !ok && err != nil
+//@   ensures[window] s <= 10 && b32ok(secret) ==> (ok <==> hotpok(a, d) && len(code) == d &&
+//@ |    exists j in -10..10 :: -s <= j && j <= s && code == hotp(a, b32key(secret), u / p + j, d))
+//@   ensures[verdict] (ok && err == nil) || (!ok && err != nil)
+//@   loop 1 invariant -s <= i && i <= s + 1 && s <= 10 && skew == s && counter == u / p && b32ok(secret) && view(secretBuf) == b32key(secret)
+//@   loop 1 invariant forall j in -10..10 :: -s <= j && j < i ==>
+//@ |    !(hotpok(a, d) && len(code) == d && code == hotp(a, b32key(secret), u / p + j, d))
+//@   loop 1 decreases s + 1 - i
+//@   loop 1 bound 21
+
+// ---------------------------------------------------------------------------
+// OCRA (RFC 6287)
+
+//@ macro usable(c) = 4 <= c.Digits && c.Digits <= 10 && c.Hash <= 2 && (c.IncludePassword ==> c.PasswordHash != 0) &&
+//@ |   (c.IncludeTimestamp ==> c.TimeStep > 0) && (c.IncludeChallenge ==> c.Challenge != 0)
+
+//@ macro admissible(c, in) = (c.IncludeCounter ==> len(in.Counter) == 8) &&
+//@ |   (c.IncludeChallenge ==> minq(c.Challenge) <= len(in.Challenge) && len(in.Challenge) <= 128) &&
+//@ |   (c.IncludePassword ==> len(in.Password) > 0 && (c.PasswordHash == 1 ==> len(in.Password) == 20) &&
+//@ |        (c.PasswordHash == 2 ==> len(in.Password) == 32) && (c.PasswordHash == 3 ==> len(in.Password) == 64)) &&
+//@ |   (c.IncludeSession ==> len(in.SessionInfo) <= 128) &&
+//@ |   (c.IncludeTimestamp ==> len(in.Timestamp) == 8)
+
+// the message layout of RFC 6287 section 5.1/6: suite, 0x00, then the selected fields in fixed order
+//@ macro ocramsg(c, in) = cat(c.Raw, single(0),
+//@ |   c.IncludeCounter ? padr(view(in.Counter), 8) : "",
+//@ |   c.IncludeChallenge ? padr(view(in.Challenge), 128) : "",
+//@ |   c.IncludePassword ? view(in.Password) : "",
+//@ |   c.IncludeSession ? padr(view(in.SessionInfo), 128) : "",
+//@ |   c.IncludeTimestamp ? padr(view(in.Timestamp), 8) : "")
+
+//@ func otp.challengeLength(format) (r)
+//@   ensures r == minq(format)
+
+//@ func otp.(OCRAInput).Validate(in, cfg) (err)
+//@   ensures[iff] err == nil <==> admissible(cfg, in)
+
+//@ func otp.(SuiteConfig).Validate(cfg) (err)
+//@   ensures[iff] err == nil <==> usable(cfg)
+//@ func otp.(SuiteConfig).Config(cfg) (r)
+//@   ensures r == cfg
+//@ func otp.(SuiteConfig).String(cfg) (r)
+//@   ensures r == cfg.Raw
+//@ func otp.(RawSuite).Validate(rs) (err)
+//@   ensures[iff] err == nil <==> usable(rs.SuiteConfig)
+//@ func otp.(RawSuite).Config(rs) (r)
+//@   ensures r == rs.SuiteConfig
+//@ func otp.(RawSuite).String(rs) (r)
+//@   ensures r == rs.SuiteConfig.Raw
+
+//@ func otp.padBytes(input, length) (r)
+//@   requires length >= 0
+//@   ensures[len] len(r) == length
+//@   ensures[trunc] len(input) >= length ==> view(r) == take(view(input), length) && aliases(r, input)
+//@   ensures[pad] len(input) < length ==> view(r) == padr(view(input), length) && fresh(r)
+
+//@ func otp.deriveRFC6287(secret, s, input) (code, err)
+//@   reveal otpcode
+//@   label secret key
+//@   label result mac
+//@   dyntypes s in SuiteConfig, RawSuite
+//@   let cfg = suitecfg(s)
+//@   ensures[rfc6287] usable(cfg) && admissible(cfg, input) ==> err == nil && code == otpcode(cfg.Hash, view(secret), ocramsg(cfg, input), cfg.Digits)
+//@   ensures[reject] !(usable(cfg) && admissible(cfg, input)) ==> err != nil && code == ""
